@@ -27,6 +27,7 @@ import numpy as np
 from physt._construction import (
     calculate_1d_bins,
     calculate_nd_bins,
+    extract_1d_array,
     extract_nd_array,
     extract_weights,
 )
@@ -482,7 +483,7 @@ def azimuthal(
             [np.asarray(xdata)[:, np.newaxis], np.asarray(ydata)[:, np.newaxis]], axis=1
         )
     data, array_mask = extract_transformed_data(
-        data, transformed=False, klass=AzimuthalHistogram, dropna=dropna
+        data, transformed=transformed, klass=AzimuthalHistogram, dropna=dropna
     )
     if isinstance(bins, int):
         bins = np.linspace(*range, bins + 1)
@@ -781,6 +782,9 @@ def extract_transformed_data(
     """Extract and potentially transform data for binning."""
     if data is None:
         return None, None
+    if transformed and issubclass(klass, Histogram1D):
+        # Already transformed values of a one-dimensional histogram are a plain 1D array
+        return extract_1d_array(data, dropna=dropna)
     _, array, array_mask = extract_nd_array(data, dim=None, dropna=dropna)
     if not transformed:
         array = klass.transform(array)  # type: ignore
